@@ -486,7 +486,17 @@ def round_(x, n=0):
 
 def isclose(a, b, rtol=1e-05, atol=1e-08):
     """numpy.isclose on scalars: |a - b| <= atol + rtol * |b|"""
-    r = abs(a - b) <= atol + rtol * abs(b)
+    d, tol = abs(a - b), atol + rtol * abs(b)
+    if core.is_sym(d) or core.is_sym(tol):
+        # floats decide the comparison at the very boundary differently from reals: the clearly-close and the clearly-far
+        # region are explored as paths of their own, so that a counter-example found there replays on the plain package
+        c = core.ctx()
+        way = c.choose([d * 2 <= tol, core.And(d * 2 > tol, d < tol * 2), d >= tol * 2], label="isclose: clearly close / boundary band / clearly far")
+        if way == 0:
+            return True
+        if way == 2:
+            return False
+    r = d <= tol
     return r
 
 
